@@ -436,7 +436,9 @@ impl Subscription {
                     );
                 }
                 Err(broadcast::error::RecvError::Closed) => break,
-                Err(broadcast::error::RecvError::Lagged(_)) => {
+                Err(broadcast::error::RecvError::Lagged(_missed)) => {
+                    #[cfg(sierradb_verif)]
+                    verif_hooks::point("sub.live.lagged", self.subscription_id, "", _missed);
                     // Don't resubscribe! That would lose buffered messages.
                     // Just re-read history to catch up on any events we missed
                     // while the channel was lagging.
